@@ -65,6 +65,14 @@ CLAIMED["C13"] = dict(
            "copy constructor and operator= copy the same members."),
     note=TB + "Not decided: numerical equality of the three algorithms, agreement with path enumeration, derivative values, stochasticity/stationarity of built-in matrices, flat-array index ranges (E2 not applied here).")
 
+CLAIMED["C12"] = dict(
+    engine="E4+E5+E1",
+    technique="static analysis: acquire/release typestate on the CFG (enable-flag pairing, probe->restore with stable-fact path restriction), entry-point sibling agreement, guard dominance for delegation, table agreement between the name->slot map and slot writes",
+    level=("Static rules decide the transparency clauses for every input and history: all six update entry points forward then update with what was set; every variable shifted for a probe is restored from the "
+           "unmodified argument on every path to the normal exit; analytic derivatives switched off for probing are switched back on at every normal exit; the cached derivative is served only for selected "
+           "variables with computing on, else delegated; the selection table is rebuilt from scratch; constraint-hit handlers flip the probing side or use one-sided formulas; slots are indexed by selection position."),
+    note=TB + "Not decided: exactness on polynomials, convergence order, values of cross derivatives (intermediate probes with other variables still shifted), exceptional exits.")
+
 NOT_APPLICABLE = {
     "C06": ("every clause is a floating-point identity of the JAMA QL/QR iterations (A.V = V.D within k.eps, ordering, trace/determinant); correctness lies in rotation coefficients and "
             "deflation tests that no sound static argument in reach bounds, and no structural necessary condition separable from run-time invariants exists (DESIGN.md section 6)"),
